@@ -6,7 +6,7 @@ from __future__ import annotations
 import ast
 import re
 
-from ..astutil import attr_chain, call_attr, calls_in, unparse, walk_local
+from ..astutil import attr_chain, call_attr, calls_in, inline_chain_aliases, unparse, walk_local
 from ..report import Finding, Report
 from ..srcindex import AnalysisError, ClassInfo, Index, raw_funcs
 
@@ -28,7 +28,7 @@ def _reads(fn: ast.AST, who: str) -> set[str]:
 
 def _key_kind(fn: ast.AST, field: str) -> str:
     """How a float payload enters eq / hash: 'bits' (bit-cast), 'value' (Python float semantics), plus 'nan-merge'."""
-    t = unparse(fn)
+    t = unparse(inline_chain_aliases(fn))
     kinds = []
     if any(b in t for b in BITCAST):
         kinds.append("bits")
